@@ -1,0 +1,77 @@
+// SPDX-FileCopyrightText: 2026 The Pion community <https://pion.ly>
+// SPDX-License-Identifier: MIT
+
+//go:build verif
+
+package rtpdump
+
+// Contracts for the contract-based verification in /verif (build tag verif); comments only.
+
+//@ func specRepresentable
+//@ pure
+//@ nosafety
+//@ func specEncodable
+//@ pure
+//@ nosafety
+
+//@ func (packetHeader).Marshal
+//@ props C36
+//@ ensures err == nil && len(ret0) == 8 && fresh(ret0)
+//@ ensures ret0[0] == byte(p.Length >> 8) && ret0[1] == byte(p.Length)
+//@ ensures ret0[2] == byte(p.PacketLength >> 8) && ret0[3] == byte(p.PacketLength)
+//@ ensures ret0[4] == byte(p.Offset >> 24) && ret0[5] == byte(p.Offset >> 16) && ret0[6] == byte(p.Offset >> 8) && ret0[7] == byte(p.Offset)
+//@ modifies nothing
+
+//@ func (*packetHeader).Unmarshal
+//@ props C36 C37
+//@ requires p != nil
+//@ ensures (err == nil) == (len(d) >= 8)
+//@ ensures err != nil ==> *p == old(*p)
+//@ ensures err == nil ==> p.Length == uint16(d[0])<<8 | uint16(d[1]) && p.PacketLength == uint16(d[2])<<8 | uint16(d[3])
+//@ ensures err == nil ==> p.Offset == uint32(d[4])<<24 | uint32(d[5])<<16 | uint32(d[6])<<8 | uint32(d[7])
+//@ modifies *p
+
+//@ func (packetHeader).offset
+//@ props C36
+//@ ensures result == time.Duration(p.Offset) * time.Millisecond
+//@ modifies nothing
+
+//@ func (*Packet).offsetMs
+//@ props C36
+//@ requires p != nil
+//@ ensures result == uint32(p.Offset / time.Millisecond)
+//@ modifies nothing
+
+//@ func (Packet).Marshal
+//@ props C36
+//@ observe len(p.Payload)
+//@ observe p.Offset
+//@ ensures err == nil ==> specEncodable(p)
+//@ ensures specEncodable(p) ==> err == nil && len(ret0) == 8 + len(p.Payload)
+//@ ensures err == nil ==> ret0[0] == byte((len(p.Payload) + 8) >> 8) && ret0[1] == byte(len(p.Payload) + 8)
+//@ ensures err == nil && !p.IsRTCP ==> ret0[2] == byte(len(p.Payload) >> 8) && ret0[3] == byte(len(p.Payload))
+//@ ensures err == nil && p.IsRTCP ==> ret0[2] == 0 && ret0[3] == 0
+//@ ensures err == nil ==> ret0[4] == byte((p.Offset / time.Millisecond) >> 24) && ret0[5] == byte((p.Offset / time.Millisecond) >> 16) && ret0[6] == byte((p.Offset / time.Millisecond) >> 8) && ret0[7] == byte(p.Offset / time.Millisecond)
+//@ ensures err == nil ==> (forall i int :: 0 <= i && i < len(p.Payload) ==> ret0[8+i] == p.Payload[i])
+//@ modifies nothing
+
+//@ func (*Packet).Unmarshal
+//@ props C36 C37
+//@ requires p != nil
+//@ observe len(data)
+//@ ensures len(data) >= 8 && (uint16(data[0])<<8 | uint16(data[1])) < 8 ==> err != nil
+//@ ensures len(data) < 8 ==> err != nil
+//@ ensures len(data) >= 8 && int(uint16(data[0])<<8 | uint16(data[1])) > len(data) ==> err != nil
+//@ ensures len(data) >= 8 && (uint16(data[0])<<8 | uint16(data[1])) >= 8 && int(uint16(data[0])<<8 | uint16(data[1])) <= len(data) ==> err == nil
+//@ ensures err == nil ==> p.Offset == time.Duration(uint32(data[4])<<24 | uint32(data[5])<<16 | uint32(data[6])<<8 | uint32(data[7])) * time.Millisecond
+//@ ensures err == nil ==> p.IsRTCP == (data[2] == 0 && data[3] == 0)
+//@ ensures err == nil ==> len(p.Payload) == int(uint16(data[0])<<8 | uint16(data[1])) - 8 && (forall i int :: 0 <= i && i < len(p.Payload) ==> p.Payload[i] == data[8+i])
+//@ modifies *p
+
+// The round-trip clause: decoding what the encoder produced gives the packet back.
+//@ func specRoundTripPacket
+//@ props C36
+//@ requires specRepresentable(p)
+//@ ensures err == nil && ret0.Offset == p.Offset && ret0.IsRTCP == p.IsRTCP && len(ret0.Payload) == len(p.Payload)
+//@ ensures forall i int :: 0 <= i && i < len(p.Payload) ==> ret0.Payload[i] == p.Payload[i]
+//@ modifies nothing
